@@ -231,7 +231,79 @@ let gen (line : string) : string =
   end;
   Printf.sprintf "W=%d;L=%d;K=%s;ops=%s" w l ks (String.concat " " (List.rev !out))
 
+(* ---------- breadth-first enumeration of the model's own state space ----------
+   request "W=..;L=..;K=..;depth=<d>;max=<n>;flags=<k|c|i|d>": explores the states reachable by scripts of at most d
+   operations (no yield schedules) and prints ONE script per newly found (state, operation) transition, so that every
+   transition of the explored graph is replayed on the implementation at least once.  States are compared without
+   their event log. *)
+let bfs (line : string) : unit =
+  let fields = List.map (fun kv -> match String.index_opt kv '=' with
+    | Some i -> (String.sub kv 0 i, String.sub kv (i + 1) (String.length kv - i - 1))
+    | None -> (kv, "")) (String.split_on_char ';' line) in
+  let geti k = int_of_string (List.assoc k fields) in
+  let w = geti "W" and l = geti "L" and depth = geti "depth" and maxn = geti "max" in
+  let ks = List.assoc "K" fields in
+  let flags = try List.assoc "flags" fields with Not_found -> "" in
+  let has c = String.contains flags c in
+  let kinds = List.init (String.length ks) (fun i -> ks.[i] = 'U') in
+  let nl = List.length kinds in
+  let lz = z_of_int l in
+  let key (st : state) (cid : int) = Marshal.to_string ({ st with trace = [] }, cid) [] in
+  let seen = Hashtbl.create 100003 in
+  let q = Queue.create () in
+  let st0 = init (nat_of_int w) kinds in
+  Hashtbl.add seen (key st0 0) ();
+  Queue.add (st0, 0, [], 0) q;
+  let printed = ref 0 in
+  let header = Printf.sprintf "W=%d;L=%d;K=%s;ops=" w l ks in
+  (try
+    while not (Queue.is_empty q) do
+      let (st, cid, rev_script, d) = Queue.pop q in
+      if d < depth && st.err = None then begin
+        let cands = ref [] in
+        let add (o : op) (txt : string) (cid' : int) = cands := (o, txt, cid') :: !cands in
+        for t = 0 to nl - 1 do
+          add (E (Connect (nat_of_int t, n_of_int (cid + 1)))) (Printf.sprintf "c%d:%d" t (cid + 1)) (cid + 1);
+          if has 'd' then add (AcceptTok (nat_of_int t, [])) (Printf.sprintf "A%d" t) cid;
+          if has 'i' then add (E (Inject (nat_of_int t, EOther))) (Printf.sprintf "i%d:o" t) cid
+        done;
+        add (Turn []) "T" cid;
+        if has 'd' then (add (HandleWaker []) "H" cid; add ProcessTimeout "O" cid);
+        if has 'i' then add (Advance (n_of_int 510)) "+510" cid;
+        List.iteri (fun g wk ->
+          if wk.w_open && wk.w_queue <> [] then begin
+            add (E (Pick (nat_of_int g))) (Printf.sprintf "p%d" g) cid;
+            add (E (DrainDrop (nat_of_int g))) (Printf.sprintf "d%d" g) cid
+          end;
+          List.iter (fun cn -> add (E (Finish (nat_of_int g, cn.c_id))) (Printf.sprintf "f%d:%d" g (int_of_n cn.c_id)) cid) wk.w_picked;
+          if has 'k' && wk.w_open then add (E (Kill (nat_of_int g))) (Printf.sprintf "k%d" g) cid;
+          if has 'k' && not wk.w_open && not (List.exists (fun w2 -> w2.w_open && w2.w_idx = wk.w_idx) st.ws)
+             && not (List.exists (fun i -> match i with IWorker _ -> true | _ -> false) st.wq) then
+            add (E (Respawn wk.w_idx)) (Printf.sprintf "r%d" (int_of_n wk.w_idx)) cid
+        ) st.ws;
+        if has 'c' then begin
+          add (E (Command CPause)) "P" cid; add (E (Command CResume)) "R" cid
+        end;
+        List.iter (fun (o, txt, cid') ->
+          let st' = step lz st o in
+          let k = key st' cid' in
+          let script = txt :: rev_script in
+          (* one script per transition whose target is new; transitions into known states are covered once per source
+             by printing them too when the source itself was new (it is: every queued state is new) *)
+          if !printed < maxn then begin
+            print_string header; print_string (String.concat " " (List.rev script)); print_char '\n'; incr printed
+          end else raise Exit;
+          if not (Hashtbl.mem seen k) then begin
+            Hashtbl.add seen k ();
+            Queue.add (st', cid', script, d + 1) q
+          end) (List.rev !cands)
+      end
+    done
+  with Exit -> ());
+  prerr_string (Printf.sprintf "bfs: %d states, %d scripts\n" (Hashtbl.length seen) !printed)
+
 let () =
+  if Sys.argv.(1) = "bfs" then begin (try while true do bfs (input_line stdin) done with End_of_file -> ()); exit 0 end;
   let f = match Sys.argv.(1) with
     | "srv" -> srv | "avail" -> avail | "gen" -> gen
     | m -> failwith ("unknown mode " ^ m) in
